@@ -88,7 +88,17 @@ type Sim struct {
 
 	// observations
 	Overlap bool
+
+	// Free: the race flavour. Goroutines are not serialised (the race detector
+	// has to see what the library's own synchronisation orders and nothing
+	// else); the driver only runs timed events and waits for quiescence.
+	Free  bool
+	hmu   sync.Mutex   // guards viol and Stats against free-running goroutines
+	stepA atomic.Int64 // mirror of Step for readers outside the driver
 }
+
+// StepNow is the driver step as seen from any goroutine.
+func (s *Sim) StepNow() int { return int(s.stepA.Load()) }
 
 var curSim atomic.Pointer[Sim]
 
@@ -108,6 +118,10 @@ func (s *Sim) After(d time.Duration, name string, f func()) *Event {
 	s.seq++
 	e := &Event{At: s.Now() + d, Seq: s.seq, Name: name, Run: f}
 	heap.Push(&s.q, e)
+	if s.Free {
+		// the driver may be asleep until a later instant: have it look again
+		s.notify()
+	}
 	return e
 }
 
@@ -123,17 +137,19 @@ func (s *Sim) Cancel(e *Event) {
 
 // Fail records a violation; the run stops at the next driver step.
 func (s *Sim) Fail(prop, rule, format string, a ...any) {
+	s.hmu.Lock()
+	defer s.hmu.Unlock()
 	for _, v := range s.viol {
 		if v.Property == prop && v.Rule == rule {
 			return // one report per rule and run is enough
 		}
 	}
-	s.viol = append(s.viol, Violation{Property: prop, Rule: rule, Msg: fmt.Sprintf(format, a...), Step: s.Step})
+	s.viol = append(s.viol, Violation{Property: prop, Rule: rule, Msg: fmt.Sprintf(format, a...), Step: s.StepNow()})
 }
 
-func (s *Sim) Failed() bool { return len(s.viol) > 0 }
+func (s *Sim) Failed() bool { s.hmu.Lock(); defer s.hmu.Unlock(); return len(s.viol) > 0 }
 
-func (s *Sim) Count(k string) { s.Stats[k]++ }
+func (s *Sim) Count(k string) { s.hmu.Lock(); s.Stats[k]++; s.hmu.Unlock() }
 
 func (s *Sim) OnStep(f func())         { s.onStep = append(s.onStep, f) }
 func (s *Sim) DoneWhen(f func() bool)  { s.doneFn = f }
@@ -155,7 +171,12 @@ func (s *Sim) addTrace(l string) {
 func (s *Sim) Go(name string, f func()) {
 	atomic.AddInt32(&s.actors, 1)
 	go func() {
-		defer atomic.AddInt32(&s.actors, -1)
+		defer func() {
+			atomic.AddInt32(&s.actors, -1)
+			if s.Free {
+				s.notify() // the driver may be asleep: the run may be over
+			}
+		}()
 		zsimrt.Enter("actor:" + name)
 		f()
 	}()
@@ -319,6 +340,7 @@ func (s *Sim) drive() {
 			idx = s.T.Intn("sched", n)
 		}
 		s.Step++
+		s.stepA.Store(int64(s.Step))
 		if s.traceOn {
 			var ids []string
 			for _, g := range parked {
@@ -365,6 +387,7 @@ type RunResult struct {
 
 // RunOpts configures one run.
 type RunOpts struct {
+	Free      bool // race flavour: goroutines run free and in parallel
 	Trace     bool
 	TraceKeep int
 	MaxStep   int
@@ -405,13 +428,33 @@ func RunOne(t *testing.T, tape *Tape, sc ScenarioFunc, o RunOpts) (res RunResult
 				}
 			}
 		}()
-		synctest.Test(t, func(t *testing.T) {
+		// synctest.Test ends the calling goroutine (t.FailNow) when the bubble's
+		// test is marked failed, which the testing package does by itself when
+		// the race detector reported something during the run: give it a
+		// goroutine of its own to end
+		bubble := func(f func(t *testing.T)) {
+			done := make(chan struct{})
+			var pv any
+			go func() {
+				defer close(done)
+				defer func() { pv = recover() }()
+				synctest.Test(t, f)
+			}()
+			<-done
+			if pv != nil {
+				panic(pv)
+			}
+		}
+		bubble(func(t *testing.T) {
 			s.start = time.Now()
 			s.wake = make(chan struct{}, 1)
 			curSim.Store(s)
 			// scheduling policy
 			s.Pol = drawPolicy(tape, o.Params)
-			zsimrt.Start(zsimrt.Hooks{ShouldYield: s.shouldYield, Notify: s.notify, Intn: s.intn})
+			s.Free = o.Free
+			if !s.Free {
+				zsimrt.Start(zsimrt.Hooks{ShouldYield: s.shouldYield, Notify: s.notify, Intn: s.intn})
+			}
 			func() {
 				defer func() {
 					if r := recover(); r != nil {
